@@ -81,6 +81,10 @@ class TlcResult:
         m = re.search(r"(\d+) states generated, (\d+) distinct states found", out)
         self.generated = int(m.group(1)) if m else 0
         self.distinct = int(m.group(2)) if m else 0
+        if not m:
+            m = re.search(r"The number of states generated: (\d+)", out)
+            if m:
+                self.generated = self.distinct = int(m.group(1))
         m = re.search(r"depth of the complete state graph search is (\d+)", out)
         self.depth = int(m.group(1)) if m else 0
         self.ok = "Model checking completed. No error has been found." in out or \
